@@ -407,6 +407,26 @@ fn spaces_typed(tier: &str) -> Vec<PrintCases> {
             stdout_every: 211,
         });
     }
+    // header shapes: the per-type dimension list is abbreviated beyond five cones; every count around that
+    // threshold, with sizes arranged so that each listed position and the final one are distinguishable
+    {
+        let soc_a = [2usize, 3, 4, 2, 3, 4, 5, 3, 6];
+        let soc_b = [5usize, 4, 3, 2, 2, 3, 4, 5, 2];
+        let psd = [1usize, 2, 1, 2, 2, 1, 2, 1, 2];
+        let mut shapes: Vec<Vec<ConeSpec>> = vec![];
+        for k in 4..=9 {
+            shapes.push(soc_a[..k].iter().map(|d| SOC(*d)).collect());
+            shapes.push(soc_b[..k].iter().map(|d| SOC(*d)).collect());
+        }
+        for k in [5, 6, 7] {
+            shapes.push(psd[..k].iter().map(|d| PSD(*d)).collect());
+        }
+        shapes.push(vec![GenPow(vec![0.5, 0.5], 1), GenPow(vec![0.2, 0.3, 0.5], 1), GenPow(vec![0.5, 0.5], 2), GenPow(vec![0.5, 0.5], 1), GenPow(vec![0.5, 0.5], 1), GenPow(vec![0.5, 0.5], 3), GenPow(vec![0.2, 0.3, 0.5], 2)]);
+        shapes.push(vec![SOC(2), NN(1), SOC(3), Exp, SOC(4), Zero(1), SOC(2), SOC(3), Pow(0.5), SOC(4), SOC(5)]);
+        for l in shapes {
+            v.push(PrintCases { src: Box::new(Planted::new(l, 2, s0.clone(), Judge::C04, 0, vec![5], "default")), stdout_every: 0 });
+        }
+    }
     // presolve reductions present: rows with an infinite bound
     for (l, n) in &lists[..2] {
         v.push(PrintCases {
